@@ -256,6 +256,38 @@ func bigUnit() harness.Unit {
 	}}
 }
 
+// carryUnit: plaintext lengths around the block counts at which a byte of the 32-bit block counter
+// carries (12-byte IV: the counter of the first block is 2): 16*k + r for k around 254, 255, 256,
+// 510, 511, 512 (thorough: 65534 .. 65537) and r in {0, 1, 15}; 12-byte and 8-byte IVs.
+func carryUnit(thorough bool) harness.Unit {
+	return harness.Unit{Name: "counter-carry", Run: func(c *harness.Ctx) {
+		var ks []int
+		for _, base := range []int{254, 510} {
+			for k := base - 2; k <= base+4; k++ {
+				ks = append(ks, k)
+			}
+		}
+		if thorough {
+			for k := 65532; k <= 65538; k++ {
+				ks = append(ks, k)
+			}
+			for k := 766; k <= 770; k++ {
+				ks = append(ks, k)
+			}
+		}
+		for _, k := range ks {
+			for _, r := range []int{0, 1, 15} {
+				n := 16*k + r
+				checkCase(c, caseT{keys[0], pu.Msg(1, 12), pu.Msg(2, n), pu.Msg(3, 5), fmt.Sprintf("key0 iv12 |A|=5 |P|=%d (%d blocks + %d)", n, k, r)}, false)
+				if r == 1 {
+					checkCase(c, caseT{keys[1], pu.Msg(7, 8), pu.Msg(2, n), nil, fmt.Sprintf("key1 iv8 |A|=0 |P|=%d (%d blocks + %d)", n, k, r)}, false)
+				}
+			}
+		}
+		c.Sample(fmt.Sprintf("|P| = 16k + r for %d block counts around the carries of the counter's low bytes, r in {0,1,15}", len(ks)))
+	}}
+}
+
 // wrapUnit searches (deterministically) for IVs whose J0 counter part is within reach of wrapping
 // and encrypts enough blocks to cross 2^32.
 func wrapUnit(budget int, maxBlocks uint32) harness.Unit {
@@ -337,7 +369,7 @@ var Prop = &harness.Prop{
 			}
 			u = append(u, flipUnit(k))
 		}
-		u = append(u, bigUnit(), tlsUnit())
+		u = append(u, bigUnit(), tlsUnit(), carryUnit(tier == "thorough"))
 		for b := 0; b < 16; b++ {
 			u = append(u, subkeyUnit(b))
 		}
